@@ -65,7 +65,7 @@ func c14(c *Ctx) {
 		okAddr := len(s.Addr) > 0
 		for _, a := range s.Addr {
 			switch {
-			case a.Kind == "field" && (strings.HasSuffix(a.Name, "Guard.origin") || strings.HasSuffix(a.Name, "Space.Addr")):
+			case a.Kind == "field" && (isFieldAtom(a, p.patchRoles().GOrigin) || strings.HasSuffix(a.Name, "Space.Addr")):
 			case a.Kind == "param" && rel == "internal/patch" && s.Kind == "other":
 				// the trampoline: must be the parameter that the size guard measured (checked in W2)
 			case a.Kind == "global" && rel == "internal/bytecode/stub":
@@ -184,7 +184,7 @@ func c14(c *Ctx) {
 				return
 			}
 			fa, ok := st.Addr.(*ssa.FieldAddr)
-			if !ok || fieldVar(fa.X.Type(), fa.Field) == nil || fieldVar(fa.X.Type(), fa.Field).Name() != "originBytes" {
+			if !ok || fieldVar(fa.X.Type(), fa.Field) == nil || fieldVar(fa.X.Type(), fa.Field) != p.patchRoles().PRestore {
 				return
 			}
 			okLen := false
@@ -197,7 +197,7 @@ func c14(c *Ctx) {
 								jb := lc.Call.Args[0]
 								eachInstr(inst, func(j ssa.Instruction) {
 									if s2, ok := j.(*ssa.Store); ok {
-										if f2, ok := s2.Addr.(*ssa.FieldAddr); ok && fieldVar(f2.X.Type(), f2.Field).Name() == "jumpBytes" && s2.Val == jb {
+										if f2, ok := s2.Addr.(*ssa.FieldAddr); ok && fieldVar(f2.X.Type(), f2.Field) == p.patchRoles().PInstall && s2.Val == jb {
 											okLen = true
 										}
 									}
@@ -494,6 +494,32 @@ func sameRange(pc protCall, w *ssa.Function) bool {
 
 // jumpGenerator: the function in patch whose []byte result derives from the entry-jump emitter and that consults GetFuncSize.
 func jumpGenerator(p *Prog) *ssa.Function {
+	// by role: the callee whose result the installer stores as the patch's jump bytes
+	if pr := p.patchRoles(); pr.Installer != nil && pr.PInstall != nil {
+		var gen *ssa.Function
+		eachInstr(pr.Installer, func(i ssa.Instruction) {
+			st, ok := i.(*ssa.Store)
+			if !ok {
+				return
+			}
+			fa, ok := st.Addr.(*ssa.FieldAddr)
+			if !ok || fieldVar(fa.X.Type(), fa.Field) != pr.PInstall {
+				return
+			}
+			for _, a := range origins(st.Val) {
+				if ex, ok := a.V.(*ssa.Extract); ok {
+					if cl, ok := ex.Tuple.(*ssa.Call); ok {
+						if cal := staticCallee(cl.Common()); cal != nil {
+							gen = cal
+						}
+					}
+				}
+			}
+		})
+		if gen != nil {
+			return gen
+		}
+	}
 	for _, f := range p.FuncsIn("internal/patch") {
 		if f.Parent() != nil {
 			continue
@@ -529,4 +555,13 @@ func patchInstaller(p *Prog) *ssa.Function {
 		})
 	}
 	return inst
+}
+
+// isFieldAtom: the atom is a load of exactly field fv.
+func isFieldAtom(a Atom, fv *types.Var) bool {
+	if a.Kind != "field" || fv == nil {
+		return false
+	}
+	_, got, ok := fieldRef(a.V)
+	return ok && got == fv
 }
